@@ -18,7 +18,13 @@ POLLER_LOOP = ['poller:top', 'poller:query', 'poller:send', 'poller:wait']
 ONCE = ['poller:start', 'writer:start', 'writer:opened']
 WRITER_LOOP = ['writer:recv']
 
+# env=stale : a socket file nobody listens on at chronyd's path (chronyd was killed / is restarting): connect() -> ECONNREFUSED
+# env=flock : another process holds an exclusive flock on the daemon's directory and on its segment file
 WRAP = ('mount -t tmpfs tmpfs /run || exit 99; : > /run/.cbharness_private || exit 98; '
+        'for a in "$@"; do case "$a" in '
+        'env=stale) mkdir -p /run/chrony && python3 -c "import socket; s=socket.socket(socket.AF_UNIX, socket.SOCK_DGRAM); s.bind(\'/run/chrony/chronyd.sock\'); s.close()" || exit 97;; '
+        'env=flock) mkdir -p /run/clockbound && : > /run/clockbound/shm.lock && (flock -x /run/clockbound sleep 40 </dev/null >/dev/null 2>&1 & flock -x /run/clockbound/shm.lock sleep 40 </dev/null >/dev/null 2>&1 &) ; sleep 0.2;; '
+        'esac; done; '
         'exec "$0" threads "$@"')
 
 
@@ -45,6 +51,10 @@ def scenarios(thorough=False, seed=0):
     # chronyd unresponsive: the poller sits in its query (2 s) while the writer dies
     out.append('thr writer:recv 1 panic hang2000')
     out.append('thr writer:opened 1 return hang2000')
+    # the world outside the daemon is hostile: a stale chronyd socket, foreign locks on the daemon's directory
+    for env in ('env=stale', 'env=flock'):
+        for sc in ('poller:top 1 panic none', 'writer:start 1 panic none', 'writer:recv 1 return ok', 'poller:wait 2 return none', 'poller:start 1 panic none'):
+            out.append(f'thr {sc} {env}')
     if thorough:
         # perturb the interleaving: a seeded small delay at the first visit of some hook point
         import random
